@@ -55,6 +55,7 @@ func (c17) Plan(tier string, seed int64) []mon.Workload {
 		{Name: "rendering", N: 2000},
 		{Name: "expression-errors", N: int64(len(c17ErrExprs) * len(c17ErrCtx)), Exhaustive: true},
 		{Name: "link-errors", N: b / 3},
+		{Name: "load-faults", N: int64(len(c17LoadFaults) * len(c17LoadCtx)), Exhaustive: true},
 	}
 }
 
@@ -105,6 +106,9 @@ func (k c17) Describe(c *mon.Ctx, workload string, i int64) any {
 		return map[string]any{"source": pc.Src}
 	case "lookup":
 		return map[string]any{"text": fmt.Sprintf("%q", k.lookupText(c, i))}
+	case "load-faults":
+		src, from, to := c17LoadFault(i)
+		return map[string]any{"source": src, "fault_region": []int{from, to}}
 	}
 	return nil
 }
@@ -161,8 +165,82 @@ func (c17) errCase(c *mon.Ctx) progCase {
 	return pc
 }
 
+// load-faults (exhaustive): one statement that cannot be loaded - rejected by
+// the parser (zero divisors at any nesting, malformed numbers and escapes,
+// missing operands and brackets) or by the check pass (unknown function,
+// wrong argument shapes, unknown pattern, break outside a loop, missing use
+// target) - among valid statements, at top level and inside blocks, after
+// multi-byte text: the load error names the script and a position that lies
+// inside the source and inside the statement at fault (the parser may only
+// notice at the token that follows it).
+var c17LoadFaults = []string{
+	"x = 4 / 0", "x = 7 % 0", "x = 2 % 0.0", "b = 8 / (4 / 0)", "a = 1 % ((2 % 0))", "x = (4 / 0)", "x = -(1 / 0)", "x = [1 / 0]", "f(k = 3 % 0)", "x = 1 / (0x)",
+	"x = 0x", "x = 1e", "x = \"\\X41\"", "x = 'a\\qb'", "x = = 1", "x = (1", "x = [1, 2", "x = {\"a\" 1}", "x = 1 2", "if { }", "x = 3 / (2 % (1 / 0))",
+	"x = 5 % (0x / 2)", "x = 1 / -(1 % 0)", "x = 6 / [1 / 0][0]", "x = 6 % len(1 / 0)",
+	"nosuch_function()", "add_key()", "grok(_, \"%{NOSUCH:x}\")", "break", "continue", "cast(x, \"nosuchtype\")", "use(\"missing.p\")", "rename(a)", "x = len(nosuch_function())",
+	"if nosuch_function() {\n}", "x = [1, nosuch_function()]", "add_key(k, nosuch_function())", "for e in nosuch_function() {\n}", "x = 1 + (2 * nosuch_function())",
+}
+var c17LoadCtx = []string{"F\n", "y = 1\nF\nz = 2\n", "# héllo 世界\ny = \"é\"\nF\n", "if true {\n  F\n}\nz = 2\n", "y = 1\nfor e in [1] {\n  if e == 1 {\n    F\n  }\n}\n", "y = 1\n\n\n   F", "a = 1; F\nz = 3\n"}
+
+func c17LoadFault(i int64) (src string, from, to int) {
+	ctx := c17LoadCtx[int(i)%len(c17LoadCtx)]
+	f := c17LoadFaults[int(i)/len(c17LoadCtx)]
+	from = strings.Index(ctx, "F")
+	src = ctx[:from] + f + ctx[from+1:]
+	// the region ends after the first token that follows the statement
+	to = from + len(f)
+	rest := src[to:]
+	k := 0
+	for k < len(rest) && strings.IndexByte(" \t\n;", rest[k]) >= 0 {
+		k++
+	}
+	for k < len(rest) && strings.IndexByte(" \t\n;", rest[k]) < 0 {
+		k++
+	}
+	return src, from, to + k
+}
+
+func (k c17) runLoadFault(c *mon.Ctx, i int64) {
+	src, from, to := c17LoadFault(i)
+	const name = "c17.p"
+	info := map[string]any{"source": src}
+	var err error
+	var pan any
+	func() {
+		defer func() { pan = recover() }()
+		_, err = drive.LoadV1One(name, src)
+	}()
+	c.Eval(1)
+	if pan != nil {
+		c.Violate("load-panic", fmt.Sprintf("loading panicked: %v\n%s", pan, src), info)
+		return
+	}
+	if err == nil {
+		c.Count("load_fault_accepted", 1) // which faults are rejected is C06/C08's business
+		return
+	}
+	c.Nontrivial(src)
+	c.Count("load_errors_checked", 1)
+	pe, ok := err.(*errchain.PlError)
+	if !ok || pe == nil || len(pe.PosChain) == 0 {
+		c.Violate("load-error-without-position", fmt.Sprintf("the load error is %T %q: it carries neither the script name nor a position\n%s", err, err, src), info)
+		return
+	}
+	p := pe.PosChain[0]
+	if d := drive.CheckPosition(p, name, src); d != "" {
+		c.Violate("load-error-position-invalid", fmt.Sprintf("error %q: %s\n%s", pe.Error(), d, src), info)
+		return
+	}
+	if p.Pos < from || p.Pos > to {
+		c.Violate("load-error-outside-faulting-statement", fmt.Sprintf("error %q is reported at %d:%d (offset %d); the statement at fault (and the token after it) occupies bytes [%d,%d]\n--- source\n%s",
+			pe.Error(), p.Ln, p.Col, p.Pos, from, to, src), info)
+	}
+}
+
 func (k c17) Run(c *mon.Ctx, workload string, i int64) {
 	switch workload {
+	case "load-faults":
+		k.runLoadFault(c, i)
 	case "tree-positions":
 		k.runTree(c)
 	case "lookup":
